@@ -192,8 +192,8 @@ def _task_jac(args):
         imp = re.findall(r'from\s+([\w\.]+)\s+cimport\s+([^\n]*cfN[^\n]*)', u.src)
         if kin is None:
             return args, None, 'NL_kinematics constant not found in ' + nlrel
-        res, cross, problems, structure = shelljac.jacobian_residuals(u, cu, kin)
-        return args, (kin, [i[0].split('.')[-1] for i in imp], res, cross, problems, structure), None
+        res, cross, problems, structure, orders = shelljac.jacobian_residuals(u, cu, kin)
+        return args, (kin, [i[0].split('.')[-1] for i in imp], res, cross, problems, structure, orders), None
     except AnalysisError as e:
         return args, None, str(e)
 
@@ -217,7 +217,7 @@ def r17_5(chk):
         for (model, nlrel, crel), out, err in pool.map(_task_jac, tasks):
             if err:
                 raise AnalysisError('R17.5 %s: %s' % (model, err))
-            kin, imps, res, cross, problems, structure = out
+            kin, imps, res, cross, problems, structure, orders = out
             base = os.path.basename(nlrel)
             chk.ob('R17.5', kin == model.split('_')[1], nlrel, 'module', 'NL_kinematics constant agrees with the model name', expected=model.split('_')[1], got=kin)
             want = os.path.basename(crel)[:-4]
@@ -229,6 +229,12 @@ def r17_5(chk):
                 chk.ob('R17.5', ok, nlrel, 'calc_k0L/cfk0L', what[:110], line=line, got=detail, detail=detail)
             for what, ok, detail in cross:
                 chk.ob('R17.5', ok, nlrel, 'cffint', what[:140], got=detail, detail=detail, sample='%s: %s' % (base, what) if n % 40 == 0 else None)
+            bad0 = [a for a, og, op in orders if og < 1]
+            bad1 = [a for a, og, op in orders if op < 2]
+            chk.ob('R17.6', not bad0, nlrel, 'cffint', 'internal force vanishes with the amplitudes', expected='every term of every fint integrand carries at least one state scalar (all of which vanish at c = 0)',
+                   got='amplitudes %s have a state-independent term' % bad0[:4] if bad0 else '', sample='%s: fint(0) = 0 term by term' % base)
+            chk.ob('R17.6', not bad1, nlrel, 'cffint', 'non-linear part is of second order for the perfect shell', expected='with w0 = 0 every term of the fint integrand is of order >= 2 in the amplitudes, so fint -> k0.c for vanishing amplitudes',
+                   got='amplitudes %s have a first-order term' % bad1[:4] if bad1 else '', sample='%s: fint_NL = O(|c|^2) for the perfect shell' % base)
             for r in res:
                 n += 1
                 construct = 'd fint[%d;%d] / d c[%d;%d]' % (r['row'] + r['col'])
